@@ -25,30 +25,40 @@ META = {
                   "prints for the record with the accumulated attributes appended.  Binding S forces every TLC schedule of 2-3 (4) "
                   "concurrent calls on shared / sibling / chained handlers with an exclusive-access monitor in the writer.  Binding T runs "
                   "16 goroutines under the race detector on one unsynchronised writer and validates the abstracted output against "
-                  "HybridLog's Log action.",
+                  "HybridLog's Log action.  Records are values: the model keeps slog.Record's inline-5 + slice storage, lets any handler "
+                  "handle an earlier record value again and proves that Handle neither writes into the caller's storage nor shows slog's "
+                  "!BUG attribute when it clones first (and refutes both without the clone); the pooled text buffer is modelled as "
+                  "(buffer Handle reads, buffer the TextHandler writes) and must stay one buffer across small and large records.",
     "level_note": "Exact bytes come from the reference slog.TextHandler (named by the statement), the model predicts the abstract content. "
                   "Attribute values are drawn from a finite table of awkward keys/values; depth, batch sizes and process counts are bounded; "
                   "freedom from data races is decided by the Go race detector on the stress executions only.",
 }
 
 MC_INV = ["TypeOK", "AttrsImmutable", "LinesCorrect", "NoSiblingLeak", "TreeShape"]
+REC_INV = ["TypeOK", "AttrsImmutable", "LinesCorrect", "NoSiblingLeak", "RecordsImmutable", "RecordStorageUntouched",
+           "NoPanic", "ItemBound"]
 MC_PROP = ["OneLinePerLog", "Frozen"]
-CONC_INV = ["TypeOK", "BufExclusive", "MsgOwned", "OneWriter", "WriterHoldsLock", "LinesCorrect", "NoTornLine", "OneLinePerRecord"]
+CONC_INV = ["TypeOK", "BufExclusive", "MsgOwned", "ItemsBound", "NoPanic", "OneWriter", "WriterHoldsLock", "LinesCorrect",
+            "NoTornLine", "OneLinePerRecord", "EveryRecordWritten"]
 
 
-def log_consts(levels, thr, batches, recs, maxh, maxlogs, maxgroups, steps, clip=True, emit_all=None):
+def log_consts(levels, thr, batches, recs, maxh, maxlogs, maxgroups, steps, clip=True, emit_all=None,
+               shapes="NoShapes", sizes="SizesNone", relogs=0, share=True, clone=True, rebind=False):
+    tf = lambda b: "TRUE" if b else "FALSE"
     c = {"Levels": "<- " + levels, "Thresholds": "<- " + thr,
          "Batches": "{%s}" % ", ".join(map(str, batches)), "RecSizes": "{%s}" % ", ".join(map(str, recs)),
-         "MaxH": maxh, "MaxLogs": maxlogs, "MaxGroups": maxgroups, "MaxSteps": steps,
-         "ClipOnDerive": "TRUE" if clip else "FALSE"}
+         "RecShapes": "<- " + shapes, "Sizes": "<- " + sizes, "LargeSizes": "<- Large",
+         "MaxH": maxh, "MaxLogs": maxlogs, "MaxRelogs": relogs, "MaxGroups": maxgroups, "MaxSteps": steps,
+         "ClipOnDerive": tf(clip), "ShareOnCopy": tf(share), "CloneBeforeAdd": tf(clone), "RebindOnLarge": tf(rebind)}
     if emit_all is not None:
-        c["EmitAll"] = "TRUE" if emit_all else "FALSE"
+        c["EmitAll"] = tf(emit_all)
     return c
 
 
-def conc_consts(gates, nbufs, **off):
-    c = {"NGates": "<- " + gates, "NBufs": nbufs, "ResetOnGet": "TRUE", "PutAfterWrite": "TRUE",
-         "WriteUnderLock": "TRUE", "SingleWrite": "TRUE"}
+def conc_consts(gates, nbufs, big=None, rebind=False, **off):
+    c = {"NGates": "<- " + gates, "BigRec": "<- " + (big or "Small%d" % nbufs), "NBufs": nbufs, "ResetOnGet": "TRUE",
+         "PutAfterWrite": "TRUE", "WriteUnderLock": "TRUE", "SingleWrite": "TRUE",
+         "RebindOnLarge": "TRUE" if rebind else "FALSE"}
     for k in off:
         c[k] = "FALSE"
     return c
@@ -82,7 +92,7 @@ class Job:
 
 def run_jobs(ctx, d, jobs):
     per = 4 if NCPU >= 8 else max(1, NCPU // 2)
-    with ThreadPoolExecutor(max_workers=max(1, NCPU // per)) as ex:
+    with ThreadPoolExecutor(max_workers=max(1, (NCPU + 2) // 3)) as ex:
         futs = [ex.submit(j.run, ctx, d, per) for j in jobs]
         for f in futs:
             f.result()
@@ -103,14 +113,16 @@ def run(ctx):
     ctx.rule = ("MC: HybridLog.tla and HybridConc.tla exhaustively with small constants (plus expected counterexamples for the wrong "
                 "designs: no Clip, no reset, early Put, Write outside the lock). G: every WithAttrs derivation sequence up to the depth "
                 "bound with batches of 0..3 attributes, every mixed derive/log/WithGroup path of the small alphabet, every configured "
-                "level x record level, and simulated long paths, replayed on the real handler; after every step every handler logs a "
+                "level x record level, records built by several AddAttrs calls and handled again by the same / another handler, records "
+                "whose text is 4 KiB-1 .. 1 MiB long between small ones, and simulated long paths, replayed on the real handler; after every step handlers log a "
                 "record and the line is compared (strict JSON, severity from the model, message from the real slog.TextHandler with the "
                 "model's attribute order). S: every schedule TLC finds for 2-3 (thorough: 4) concurrent Handle calls, forced through "
                 "gates on shared/sibling/chained handlers. T: 16 free-running goroutines under -race, output abstracted to attribute ids "
                 "and validated by HybridTrace.tla. distinct_nontrivial = distinct non-empty paths + distinct schedules + stress records")
     ctx.assumptions += [
         "the io.Writer never fails and io.Writer / LogValuer / ReplaceAttr code supplied by the caller does not panic",
-        "each Handle call gets its own slog.Record (copies of one Record sharing a backing array are the caller's business: Record.Clone)",
+        "a record value may be handed to Handle any number of times (same handler, siblings, concurrently) without Clone; the "
+        "caller does not modify it meanwhile",
         "attribute keys/values come from a fixed table (quotes, newlines, control bytes, invalid UTF-8, empty/odd keys, groups, "
         "numbers, times, []byte, errors, nil, TextMarshaler, LogValuer); the handler treats other values alike",
         "WithGroup is modelled as 'panics, changes nothing' (what the code does; the statement is silent)",
@@ -163,6 +175,31 @@ def run(ctx):
         c = log_consts("LevelsMC", "ThrMC", B, [0, 2], 5, 1, 1, 6)
     jobs.append(Job("log-mc", "HybridLogMC", "Spec", c, invariants=MC_INV, properties=MC_PROP, timeout=3600,
                     workers=None if q else min(8, NCPU)))
+    # MC of records as values the caller keeps and hands to Handle again (inline-5 + slice storage), and of
+    # the pooled text buffer under small and large records
+    if q:
+        c = log_consts("LevelsOne", "ThrInfo", [1], [0, 1], 3, 2, 0, 5, shapes="ShapesQuick", sizes="SizesLS", relogs=2)
+    else:
+        c = log_consts("LevelsOne", "ThrInfo", [1, 2], [0, 1], 3, 2, 0, 5, shapes="ShapesQuick", sizes="SizesQuick", relogs=2)
+    jobs.append(Job("log-mc-records", "HybridLogMC", "Spec", c, invariants=REC_INV, timeout=3600,
+                    workers=None if q else min(8, NCPU)))
+    if not q:
+        # every way to build a record of 0..8 attributes with 1..3 AddAttrs calls
+        jobs.append(Job("log-mc-all-shapes", "HybridLogMC", "Spec",
+                        log_consts("LevelsOne", "ThrInfo", [1], [0], 2, 2, 0, 3, shapes="ShapesAll", sizes="SizesLS", relogs=2),
+                        invariants=REC_INV))
+    # G: records handled again (same handler, a sibling, the parent) and records built by several AddAttrs calls
+    if q:
+        c = log_consts("LevelsOne", "ThrInfo", [1, 2], [0], 3, 2, 0, 4, shapes="ShapesQuick", relogs=2, emit_all=False)
+    else:
+        c = log_consts("LevelsOne", "ThrInfo", [1], [0], 3, 2, 0, 5, shapes="ShapesQuick", relogs=2, emit_all=False)
+    jobs.append(Job("gen-records", "HybridLogGen", "GSpec", c, invariants=["Emit", "LinesCorrect", "RecordStorageUntouched"]))
+    # G: records whose text line is 4 KiB-1 .. 1 MiB long, interleaved with small ones, on the root and a derived handler
+    if q:
+        c = log_consts("LevelsOne", "ThrInfo", [1], [0, 1], 2, 3, 0, 3, sizes="SizesQuick", relogs=1, emit_all=False)
+    else:
+        c = log_consts("LevelsOne", "ThrInfo", [1], [1], 2, 4, 0, 4, sizes="SizesAll", relogs=1, emit_all=False)
+    jobs.append(Job("gen-sizes", "HybridLogGen", "GSpec", c, invariants=["Emit", "LinesCorrect", "NoPanic", "ItemBound"]))
     # G: mixed derive / log (all 7 levels) / WithGroup paths, all prefixes
     if q:
         c = log_consts("LevelsAll", "ThrWarn", [0, 2], [1, 6], 3, 2, 1, 4, emit_all=True)
@@ -191,6 +228,14 @@ def run(ctx):
     for gates, np_ in layouts:
         jobs.append(Job("conc-gen-" + gates, "HybridConcGen", "GSpec", conc_consts(gates, np_),
                         invariants=["Emit", "OneWriter", "LinesCorrect", "BufExclusive"]))
+    # ... and with large records among the small ones (the pooled buffer grows and is handed on)
+    biglayouts = [("G11", 2, "Big10"), ("G011", 3, "Big100")] if q else \
+                 [("G11", 2, "Big10"), ("G011", 3, "Big100"), ("G111", 3, "Big010"), ("G111", 3, "Big110")]
+    for gates, np_, big in biglayouts:
+        jobs.append(Job("conc-gen-%s-%s" % (gates, big), "HybridConcGen", "GSpec", conc_consts(gates, np_, big=big),
+                        invariants=["Emit", "OneWriter", "LinesCorrect", "ItemsBound", "NoPanic"]))
+    jobs.append(Job("conc-mc-3-large", "HybridConcMC", "Spec", conc_consts("G111", 3, big="Big110"), invariants=CONC_INV,
+                    properties=["Termination"], deadlock=True))
     # G: every configured level x every record level on the root and derived handlers
     jobs.append(Job("gen-levels", "HybridLogGen", "GSpec",
                     log_consts("LevelsAll", "ThrAll", [0, 1], [1], 3, 1, 0, 3, emit_all=True),
@@ -198,6 +243,22 @@ def run(ctx):
     # deliberately wrong designs: TLC must find the observable consequence
     jobs.append(Job("log-mc-noclip", "HybridLogMC", "Spec", log_consts("LevelsEdge", "ThrInfo", B, [1], 5, 1, 0, 6, clip=False),
                     invariants=MC_INV, wrong=("AttrsImmutable", "LinesCorrect", "NoSiblingLeak")))
+    rc = dict(shapes="ShapesMC", sizes="SizesLS", relogs=2)
+    jobs.append(Job("log-mc-noclone", "HybridLogMC", "Spec",
+                    log_consts("LevelsOne", "ThrInfo", [1], [0], 3, 2, 0, 4, clone=False, **rc),
+                    invariants=("LinesCorrect", "NoSiblingLeak"), wrong=("LinesCorrect", "NoSiblingLeak")))
+    jobs.append(Job("log-mc-noclone-storage", "HybridLogMC", "Spec",
+                    log_consts("LevelsOne", "ThrInfo", [1], [0], 3, 2, 0, 4, clone=False, **rc),
+                    invariants=("RecordStorageUntouched",), wrong=("RecordStorageUntouched",)))
+    # ... which is a consequence of Go's copy semantics: with private copies no Clone would be needed
+    jobs.append(Job("log-mc-noclone-private-copies", "HybridLogMC", "Spec",
+                    log_consts("LevelsOne", "ThrInfo", [1], [0], 3, 2, 0, 4, clone=False, share=False, **rc),
+                    invariants=REC_INV, counts=False))
+    jobs.append(Job("log-mc-rebind", "HybridLogMC", "Spec",
+                    log_consts("LevelsOne", "ThrInfo", [1], [0], 2, 3, 0, 4, rebind=True, **rc),
+                    invariants=("NoPanic",), wrong=("NoPanic",)))
+    jobs.append(Job("conc-mc-rebind", "HybridConcMC", "Spec", conc_consts("G111", 3, big="Big100", rebind=True),
+                    invariants=("NoPanic", "EveryRecordWritten"), wrong=("NoPanic", "EveryRecordWritten")))
     obs = ("LinesCorrect", "OneLinePerRecord")
     for name, off, allowed in (("no-reset", {"ResetOnGet": 1}, obs), ("early-put", {"PutAfterWrite": 1}, obs),
                                ("write-outside-lock", {"WriteUnderLock": 1}, ("OneWriter",)),
@@ -234,7 +295,7 @@ def run(ctx):
     phase["tlc"] = round(time.time() - t0, 1)
     exhaustive_paths = 0
     gsum = {}
-    for name, exhaustive in [("gen-trees-" + t[0], True) for t in trees] + [("gen-mixed", True), ("gen-levels", True), ("gen-sim", False)]:
+    for name, exhaustive in [("gen-trees-" + t[0], True) for t in trees] + [("gen-records", True), ("gen-sizes", True), ("gen-mixed", True), ("gen-levels", True), ("gen-sim", False)]:
         path = byname[name].dir / "hybrid_vectors.ndjson"
         n = count_lines(path)
         rf = ctx.scratch / ("tree_%s.res" % name)
